@@ -1048,6 +1048,11 @@ def corpus():
     cs.append(raw([['addR', 0, 0], ['addW', 1, 1], ['seq', [['close', 0], ['discard', 0], ['reopen', 0, 2]]], ['rmW', 1], ['peer_send', 0, 1],
                    ['addR', 0, 2], ['consume', 0]]))
     cs.append(raw([['addR', 0, 0], ['addW', 0, 0], ['seq', [['close', 0], ['reopen', 0, 2], ['discard_old', 0]]], ['addW', 1, 1], ['rmW', 1], ['nop', 0]]))
+    # ... and the late discard (or role removal) of the closed object comes when the NEW holder of the number is already registered
+    cs.append(raw([['addR', 0, 0], ['peer_send', 0, 1], ['seq', [['close', 0], ['reopen', 0, 2], ['addR', 0, 1], ['discard_old', 0]]], ['peer_send', 0, 1], ['nop', 0],
+                   ['rmR', 0], ['nop', 0]]))
+    cs.append(raw([['addW', 0, 0], ['addR', 1, 1], ['seq', [['close', 0], ['reopen', 0, 1], ['addW', 0, 2], ['addR', 0, 2], ['discard_old', 0]]], ['peer_send', 0, 2], ['nop', 0],
+                   ['peer_send', 1, 1], ['rmW', 0], ['nop', 0], ['discard', 0]]))
     # known finding B: closed without discard, number reused by a socket the poller was never told about
     cs.append(raw([['addR', 0, 0], ['addW', 1, 1], ['seq', [['close', 0], ['reopen', 0, 2]]], ['rmW', 1], ['peer_send', 0, 1], ['nop', 0]]))
     cs.append(raw([['addR', 0, 0], ['addW', 0, 0], ['addR', 1, 1], ['seq', [['close', 0], ['reopen', 0, 0]]], ['peer_send', 1, 1], ['peer_send', 0, 1],
@@ -1160,7 +1165,18 @@ def gen_raw(rng):
         if mode == 'A':
             form = rng.random()
             if tail and form < 0.5:
-                return [['seq', [['close', i]] + tail + [['discard_old', i]]]]
+                mid = []
+                if rng.random() < 0.5:
+                    # the new holder of the number is registered before the closed object is discarded
+                    who = rng.randrange(NSRC)
+                    role = rng.choice(['addR', 'addW'])
+                    mid = [[role, i, who]]
+                    owner[i] = who
+                    if role == 'addR':
+                        regR[i] = True
+                    else:
+                        regW[i] = True
+                return [['seq', [['close', i]] + tail + mid + [['discard_old', i]]]]
             if form < 0.85 or tail:
                 return [['seq', [['close', i], ['discard', i]] + tail]]
             was_reg[i] = True
